@@ -622,6 +622,41 @@ class VNamed(VTuple):
 class C10Executor(Executor):
     """Pack-local models of the abstract 7z header view (all ASSUMED views are listed in ASSUMED_MODELS)."""
 
+    # -- `class PropertyId(IntEnum): END = 0x00 ...`: a member of an int-valued enumeration of the module IS the int it is
+    #    defined with for ==, !=, <, in, hashing, arithmetic and str() (PY-INTENUM, Python >= 3.11); repr() / type() / `is`
+    #    differ and stay unmodelled (a member that reaches them is a VInt: `is` on ints is out of subset).  Only literal
+    #    int members of a class whose bases are exactly IntEnum / IntFlag / (int, Enum) are read this way.
+    def _int_enum_member(self, cls, attr):
+        node = self.module.classes.get(cls)
+        if node is None or node.keywords or node.decorator_list:
+            return None
+        bases = []
+        for b in node.bases:
+            d = b.id if isinstance(b, ast.Name) else (f"{b.value.id}.{b.attr}" if isinstance(b, ast.Attribute) and isinstance(b.value, ast.Name) else None)
+            if d is None:
+                return None
+            bases.append(self.module.imports.get(d.split(".")[0], d.split(".")[0]) + ("." + d.split(".", 1)[1] if "." in d else ""))
+        if bases not in (["enum.IntEnum"], ["enum.IntFlag"], ["int", "enum.Enum"]):
+            return None
+        found = None
+        for stmt in node.body:
+            if isinstance(stmt, ast.Assign) and len(stmt.targets) == 1 and isinstance(stmt.targets[0], ast.Name):
+                if stmt.targets[0].id in ("_ignore_", "_order_", "_generate_next_value_", "_missing_"):
+                    return None
+                if stmt.targets[0].id == attr:
+                    try:
+                        v = ast.literal_eval(stmt.value)
+                    except (ValueError, SyntaxError, TypeError):
+                        return None
+                    if type(v) is not int or found is not None:
+                        return None
+                    found = v
+            elif isinstance(stmt, (ast.FunctionDef, ast.AsyncFunctionDef)) and stmt.name in ("__eq__", "__hash__", "__str__", "__format__", "__new__", "__init__",
+                                                                                            "__int__", "__index__", "__lt__", "__le__", "__gt__", "__ge__", "__ne__",
+                                                                                            "_missing_", "_generate_next_value_"):
+                return None
+        return found
+
     # -- `def f(..., **opts)` / `g(**opts)`: keyword pass-through as an immutable dict with constant keys
     def bind_params(self, fnode, args, kwargs, node, st=None, self_val=None):
         kw = fnode.args.kwarg
@@ -692,7 +727,84 @@ class C10Executor(Executor):
             return VType(name)
         return super().global_name(name, node)
 
+    # -- a PLAIN class of the module (no bases, decorators, metaclass, __new__, class-level state): `C(args)` allocates an object and
+    #    runs the real __init__ on it; its methods are executed in place (engine: obj_method).  `with C(args) [as v]: body` over
+    #    such a class that defines __enter__ / __exit__ is executed as its definition (PEP 343): enter; try: body; except: if not
+    #    exit(type, exc, tb): raise; finally (no exception): exit(None, None, None).  The exception TYPE and the traceback handed
+    #    to __exit__ are unknown values (an __exit__ that decides by them is `unknown`); the exception object is the real one.
+    def _plain_class(self, name):
+        node = self.module.classes.get(name)
+        if node is None or node.bases or node.keywords or node.decorator_list or "." in name:
+            return None
+        for b in node.body:
+            if isinstance(b, (ast.FunctionDef,)):
+                if b.name in ("__new__", "__getattr__", "__getattribute__", "__setattr__", "__init_subclass__") or b.decorator_list:
+                    return None
+            elif isinstance(b, ast.Expr) and isinstance(b.value, ast.Constant):
+                continue                       # docstring
+            elif isinstance(b, ast.Pass):
+                continue
+            else:
+                return None
+        return node
+
+    def _construct_plain(self, st, name, args, kwargs, node):
+        obj = VRef(st.alloc(HeapObj("obj", {}, name), self.refs))
+        if f"{name}.__init__" not in self.module.functions:
+            if args or kwargs:
+                self.raise_in(st, self.mk_exc("TypeError"))
+                return []
+            return [(st, obj)]
+        return [(s2, obj) for (s2, _r) in self.obj_method(st, obj, "__init__", args, kwargs, node)]
+
+    _with_cache = None
+
+    def s_With(self, s, st):
+        rewritten = self._with_as_protocol(s)
+        if rewritten is None:
+            return super().s_With(s, st)
+        et, tb, stmts = rewritten
+        st.bind(et, VUnk("exc_type"))
+        st.bind(tb, VUnk("traceback"))
+        return self.exec_block(stmts, st)
+
+    def _with_as_protocol(self, s):
+        if self._with_cache is None:
+            self._with_cache = {}
+        if id(s) in self._with_cache:
+            return self._with_cache[id(s)][1]
+        out = None
+        item = s.items[0]
+        e = item.context_expr
+        if isinstance(e, ast.Call) and isinstance(e.func, ast.Name) and self._plain_class(e.func.id) is not None and \
+                f"{e.func.id}.__enter__" in self.module.functions and f"{e.func.id}.__exit__" in self.module.functions:
+            k = len(self._with_cache)
+            cm, ok, ex_, et, tb = (f"_c10_with{k}_{x}" for x in ("cm", "ok", "exc", "type", "tb"))
+            body = list(s.body) if len(s.items) == 1 else [ast.With(items=list(s.items[1:]), body=list(s.body))]
+            L, N = (lambda x: ast.Name(id=x, ctx=ast.Load())), (lambda x: ast.Name(id=x, ctx=ast.Store()))
+            call = lambda m, a: ast.Call(func=ast.Attribute(value=L(cm), attr=m, ctx=ast.Load()), args=a, keywords=[])      # noqa: E731
+            enter = call("__enter__", [])
+            stmts = [ast.Assign(targets=[N(cm)], value=e),
+                     ast.Assign(targets=[item.optional_vars], value=enter) if item.optional_vars is not None else ast.Expr(value=enter),
+                     ast.Assign(targets=[N(ok)], value=ast.Constant(value=True)),
+                     ast.Try(body=[ast.Try(body=body, handlers=[ast.ExceptHandler(type=L("BaseException"), name=ex_, body=[
+                         ast.Assign(targets=[N(ok)], value=ast.Constant(value=False)),
+                         ast.If(test=ast.UnaryOp(op=ast.Not(), operand=call("__exit__", [L(et), L(ex_), L(tb)])), body=[ast.Raise(exc=None, cause=None)], orelse=[])])],
+                         orelse=[], finalbody=[])],
+                         handlers=[], orelse=[],
+                         finalbody=[ast.If(test=L(ok), body=[ast.Expr(value=call("__exit__", [ast.Constant(value=None)] * 3))], orelse=[])])]
+            for x in stmts:
+                ast.copy_location(x, s)
+                ast.fix_missing_locations(x)
+            out = (et, tb, stmts)
+        self._with_cache[id(s)] = (s, out)           # the node is kept alive with its rewriting (ids are recycled otherwise)
+        return out
+
     def construct(self, st, t, args, kwargs, node):
+        if isinstance(t, VType) and not self.uni.known(t.name) and ("new", t.name) not in self.reg.ext_models and \
+                self._namedtuple_fields(t.name) is None and self.namedtuple_fields(t.name) is None and self.dataclass_fields(t.name) is None and \
+                self._plain_class(t.name) is not None:
+            return self._construct_plain(st, t.name, args, kwargs, node)
         fields = self._namedtuple_fields(t.name) if isinstance(t, VType) else None
         if fields is not None:
             names = [f for f, _d in fields]
@@ -713,6 +825,13 @@ class C10Executor(Executor):
     def get_attr(self, st, base, attr, node):
         if isinstance(base, VNamed) and attr in base.fields:
             return [(st, base.items[base.fields.index(attr)])]
+        if isinstance(base, VType) and not attr.startswith("_"):
+            try:
+                v = self._int_enum_member(base.name, attr)
+            except Exception:  # noqa  an unrecognised class shape is not an enum member
+                v = None
+            if v is not None:
+                return [(st, VInt(z3.IntVal(v)))]
         return super().get_attr(st, base, attr, node)
 
     _role_stack = ()
@@ -725,6 +844,31 @@ class C10Executor(Executor):
             # streams the container was opened on (seekable `r:` vs one-pass `r|`) is judged by the clauses about the open mode
             self.exc_any(st.fork(), "TarFile.getmembers()")
             it = tar_members_seq(it)
+        if isinstance(it, VSeq) and isinstance(it.tag, tuple) and len(it.tag) == 4 and it.tag[0] == "genexp" and not getattr(s, "_c10_from_genexp", False):
+            # `for x in (E for t in IT if C): body` is the loop `for t in IT: if not C: continue; x = E; body` over the iterable
+            # the generator expression was created on (evaluated at creation, PY-GENEXP); E and C run once per element, lazily,
+            # so an element that may raise raises from the loop, under the loop's invariant.  The generator's own variable must
+            # not be a name of the enclosing function (it would be private to the generator).
+            gnode, base = it.tag[2], it.tag[3]
+            g = gnode.generators[0]
+            tnames = {x.id for x in ast.walk(g.target) if isinstance(x, ast.Name)}
+            fn = st.frame.fnode
+            outside = [x for x in ast.walk(fn) if isinstance(x, ast.Name) and x.id in tnames] if fn is not None else []
+            within = [x for x in ast.walk(gnode) if isinstance(x, ast.Name) and x.id in tnames]
+            if fn is None or len(outside) != len(within) or any(st.lookup(t) is not None for t in tnames):
+                self.unsupported(s, "loop over a generator expression whose variable is also a name of the function")
+            tmp = fresh_name("genexp!iter").replace("!", "_")
+            st.bind(tmp, base)
+            body = [ast.If(test=ast.UnaryOp(op=ast.Not(), operand=c_), body=[ast.Continue()], orelse=[]) for c_ in g.ifs]
+            body.append(ast.Assign(targets=[s.target], value=gnode.elt))
+            loop = ast.For(target=g.target, iter=ast.Name(id=tmp, ctx=ast.Load()), body=body + list(s.body), orelse=list(s.orelse))
+            ast.copy_location(loop, s)
+            for x in body:
+                ast.copy_location(x, s)
+                ast.fix_missing_locations(x)
+            ast.fix_missing_locations(loop)
+            loop._c10_from_genexp = True
+            return self.symbolic_for(loop, st, base)
         if self.contract is not None:
             for key, sp in self.contract.loops.items():
                 if isinstance(key, tuple) and key[0] == "role" and sp.match(self, st, it, s):
@@ -814,7 +958,7 @@ class C10Executor(Executor):
                         if len(r) != 1 or any(self.feasible(es.pc) for (es, _e) in raised):
                             self.unsupported(n, "generator expression: forking / raising element")
                         return z3.And(conds + [z3.BoolVal(True)]), r[0][1]
-                    out.append((s2, VSeq(it.length, lambda j, at=at: at(j)[1], "genexp", tag=("genexp", at))))
+                    out.append((s2, VSeq(it.length, lambda j, at=at: at(j)[1], "genexp", tag=("genexp", at, n, it))))
                 return out
         return super().e_GeneratorExp(n, st)
 
@@ -825,16 +969,40 @@ class C10Executor(Executor):
         rng = z3.And(j >= 0, j < v.length)
         return VBool(z3.Exists([j], z3.And(rng, cond, t))) if not conj else VBool(z3.ForAll([j], z3.Implies(z3.And(rng, cond), t)))
 
+    def _bytes_truth(self, st, v, conj):
+        """any(b) / all(b) over a byte sequence: some / every byte is non-zero.  When the path condition fixes the length to a
+        small constant the quantifier is written out (a propositional fact per index: no dependence on instantiation luck)."""
+        nz = lambda j: self.as_byte(v.elem(j)).t != bv(0)          # noqa: E731
+        k = None
+        ln = z3.simplify(v.length)
+        if z3.is_int_value(ln):
+            k = ln.as_long()
+        else:
+            for cand in range(0, 1025, 512):
+                if self.feasible(st.pc, v.length == cand) and not self.feasible(st.pc, v.length != cand):
+                    k = cand
+                    break
+        if k is not None and 0 <= k <= 1024:
+            ts = [nz(z3.IntVal(i)) for i in range(k)]
+            return VBool(z3.And(ts + [z3.BoolVal(True)]) if conj else z3.Or(ts + [z3.BoolVal(False)]))
+        j = z3.Int(fresh_name("j!bytes"))
+        rng = z3.And(j >= 0, j < v.length)
+        return VBool(z3.ForAll([j], z3.Implies(rng, nz(j))) if conj else z3.Exists([j], z3.And(rng, nz(j))))
+
     def b_any(self, st, args, kwargs, node):
         v = args[0]
         if isinstance(v, VSeq) and isinstance(v.tag, tuple) and v.tag and v.tag[0] == "genexp":
             return [(st, self._quantify(st, v, False))]
+        if isinstance(v, VSeq) and v.is_bytes and len(args) == 1:
+            return [(st, self._bytes_truth(st, v, False))]
         return super().b_any(st, args, kwargs, node)
 
     def b_all(self, st, args, kwargs, node):
         v = args[0]
         if isinstance(v, VSeq) and isinstance(v.tag, tuple) and v.tag and v.tag[0] == "genexp":
             return [(st, self._quantify(st, v, True))]
+        if isinstance(v, VSeq) and v.is_bytes and len(args) == 1:
+            return [(st, self._bytes_truth(st, v, True))]
         return super().b_all(st, args, kwargs, node)
 
     def _filter_comp(self, n, st):
@@ -1133,6 +1301,16 @@ class C10Executor(Executor):
 
     def get_slice(self, st, base, sl, node):
         if isinstance(base, VExt) and base.sort == "Blob":
+            if sl.step is None and (sl.lower is None) != (sl.upper is None):
+                # b[:n] / b[n:] with n >= 0 (PY-SLICE clips at the end): the whole of b / nothing when n >= len(b)
+                n = self._ev_int1(sl.upper if sl.lower is None else sl.lower, st, node)
+                if self.feasible(st.pc, n < 0):
+                    self.unsupported(node, "blob slice with a possibly negative bound")
+                st.assume(BLEN(base.t) >= 0)
+                L = BLEN(base.t)
+                if sl.lower is None:
+                    return [(st, VExt("Blob", z3.If(n >= L, base.t, BSLICE(base.t, z3.IntVal(0), n))))]
+                return [(st, VExt("Blob", z3.If(n <= 0, base.t, BSLICE(base.t, z3.If(n >= L, L, n), L))))]
             if sl.step is not None or sl.lower is None or sl.upper is None:
                 self.unsupported(node, "blob slice shape")
             lo, hi = self._ev_int1(sl.lower, st, node), self._ev_int1(sl.upper, st, node)
@@ -1413,6 +1591,12 @@ def install_layout(reg):
     reg.method_models[("OutFile", "write")] = m_outfile_write
     reg.ext_models[("with", "OutFile")] = with_outfile
     reg.ext_models["os.makedirs"] = os_raising("os.makedirs")
+    # os.path primitives of _safe_join: uninterpreted (the C09 pack's ASSUMED models), POSIX constants
+    from contracts import C09 as _c09
+    for _k, _m in (("os.path.splitdrive", _c09.m_splitdrive), ("os.path.isabs", _c09.m_isabs), ("os.path.abspath", _c09.m_abspath)):
+        reg.ext_models.setdefault(_k, _m)
+    for _k, _v in (("os.sep", "/"), ("os.path.sep", "/"), ("os.pardir", ".."), ("os.path.pardir", ".."), ("os.curdir", "."), ("os.path.curdir", ".")):
+        reg.ext_models.setdefault(("const", _k), VStr(_v))
     reg.ext_models["os.path.dirname"] = lambda ex, st, args, kwargs, node: [(st, VStr(DIRNAME(args[0].t)))]
     reg.attr_models[("Folder", "coders")] = lambda ex, st, o: VSeq(
         NCOD(o.t), lambda i: VTuple([VExt("CoderId", CID(o.t, i)), VExt("CoderProps", CPROP(o.t, i))]), "coder")
@@ -1658,7 +1842,31 @@ def layout_contracts(lay_reg=None):
         note="decodes archive[pack_pos : pack_pos + sum(pack_sizes)] through the folder's coder chain, last coder first "
              "(empty / all-zero size list: everything from pack_pos to the end of the file -- the header case)"))
 
-    # ---- _safe_join / _mkdirs (C09 proves _safe_join's confinement; here only their exception surface matters)
+    # ---- _safe_join / _mkdirs (C09 proves _safe_join's confinement; here: WHEN it may refuse a member name -- a refusal aborts
+    # the extraction of the whole archive, so a name may be refused only for being unsafe, never for what it merely contains)
+    from contracts import C09 as _c09
+
+    def sj_unsafe(c):
+        """an UNSAFE member name (POSIX, in terms of the os.path primitives, which stay uninterpreted): empty names are never
+        refused; a drive, an absolute name, a name whose normal form climbs ('..' or '../...'), or a name whose absolute
+        join with the base is neither the base nor below it"""
+        base, rel = c.args["base_dir"].t, c.args["relative_path"].t
+        tail = _c09.TAIL(rel)
+        sv = z3.StringVal
+        nf = NORMPATH(tail)
+        b = _c09.ABS(base)
+        joined = z3.If(z3.PrefixOf(sv("/"), tail), tail, z3.If(z3.Or(z3.Length(b) == 0, z3.SuffixOf(sv("/"), b)), z3.Concat(b, tail), z3.Concat(b, sv("/"), tail)))
+        t = _c09.ABS(joined)
+        return z3.And(z3.Length(rel) > 0,
+                      z3.Or(z3.Length(_c09.DRIVE(rel)) > 0, _c09.ISABS(rel), z3.PrefixOf(sv("/"), rel), z3.PrefixOf(sv("\\"), rel),
+                            nf == sv(".."), z3.PrefixOf(sv("../"), nf),
+                            z3.And(t != b, z3.Not(z3.PrefixOf(z3.Concat(b, sv("/")), t)))))
+
+    out.append(FnContract(
+        target=f"{SEVEN}::_safe_join", params=[("base_dir", p_str()), ("relative_path", p_str())],
+        raises=[Raises(BAD, label="unsafe member name", when=sj_unsafe)],
+        result_maker=lambda ex, st, ctx: VStr(z3.String(fresh_name("safe_path"))),
+        note="a member name is refused only when it is unsafe: drive / absolute / climbing normal form / joined path outside the base"))
     out.append(FnContract(
         target=f"{SEVEN}::_safe_join", assumed=True, params=[("base_dir", p_str()), ("relative_path", p_str())],
         returns=lambda c: VStr(SJ(c.args["base_dir"].t, c.args["relative_path"].t)),
@@ -1786,6 +1994,17 @@ def layout_contracts(lay_reg=None):
             conj.append(z3.Not(HASF(i - 1)))
         if lc.extra.get("phase") in ("init", "assume"):
             lc.st.assume(ps_def(i))                      # definition of the prefix sum at 0 and at this folder index
+        # a RUNNING position (an int the loop carries from folder to folder) has advanced by the packed sizes of the
+        # folders passed so far: candidate invariant for every loop-carried int; a carried int of another kind fails its
+        # preservation VC (-> unknown, the replayer decides), it is never assumed away
+        try:
+            carried = loop_carried_ints(lc)
+        except Exception:  # noqa  (no recognisable loop node: no candidates)
+            carried = {}
+        for name, cur in carried.items():
+            v0 = lc.entry.lookup(name)
+            if isinstance(v0, VInt) and isinstance(cur, VInt):
+                conj.append(ops.int_term(cur) == ops.int_term(v0) + PS(i))
         return z3.And(conj + [PS(i) >= 0])
 
     out.append(FnContract(
@@ -1973,12 +2192,16 @@ def with_passthrough(ex, st, cm, phase):
 
 def m_seq_startswith(ex, st, obj, args, kwargs, node):
     """bytes.startswith(prefix | tuple of prefixes) on a byte sequence of symbolic length"""
-    if not (isinstance(obj, VSeq) and obj.is_bytes and len(args) == 1):
+    if not (isinstance(obj, VSeq) and obj.is_bytes and len(args) in (1, 2)) or kwargs:
         return ex.havoc_call(st, "seq.startswith", args, node)
     cands = list(args[0].items) if isinstance(args[0], VTuple) else [args[0]]
     if not all(isinstance(c_, VBytes) for c_ in cands):
         return ex.havoc_call(st, "seq.startswith", args, node)
-    alts = [z3.And([obj.length >= len(c_.items)] + [ex.as_byte(obj.elem(z3.IntVal(i))).t == ex.as_byte(b).t for i, b in enumerate(c_.items)])
+    # startswith(prefix, start) with a constant start >= 0: the prefix is compared at offset start; False when start > len
+    off = args[1].const() if len(args) == 2 and isinstance(args[1], VInt) else (0 if len(args) == 1 else None)
+    if not isinstance(off, int) or isinstance(off, bool) or off < 0:
+        return ex.havoc_call(st, "seq.startswith", args, node)
+    alts = [z3.And([obj.length >= off + len(c_.items)] + [ex.as_byte(obj.elem(z3.IntVal(off + i))).t == ex.as_byte(b).t for i, b in enumerate(c_.items)])
             for c_ in cands]
     return [(st, VBool(z3.Or(alts + [z3.BoolVal(False)])))]
 
@@ -1991,6 +2214,27 @@ NORMPATH = z3.Function("os_path_normpath", S, S)
 def m_pathcounts_get(ex, st, obj, args, kwargs, node):
     k = args[0]
     return [(st, VInt(PCOUNT(k.t)))] if isinstance(k, VStr) else ex.havoc_call(st, "PathCounts.get", args, node)
+
+
+NPARTS = z3.Function("str_split_count", S, S, I)
+PART = z3.Function("str_split_part", S, S, I, S)
+
+
+def m_str_split(ex, st, args, kwargs, node):
+    """s.split(sep) with a constant non-empty separator (PY-STR-SPLIT, ASSUMED view): a list of n >= 1 pieces PART(s, sep, i),
+    none of which contains sep; s starts with piece 0 (followed by sep when n > 1, the whole of s when n == 1) and ends with
+    the last piece; n == 1 exactly when sep does not occur in s.  (Facts true of every split; not a complete axiomatisation:
+    what does not follow from them is `unknown` and goes to the replayer.)"""
+    sep = args[1].const() if len(args) == 2 and isinstance(args[1], VStr) else None
+    if kwargs or not isinstance(args[0], VStr) or not isinstance(sep, str) or not sep:
+        return ex.havoc_call(st, "str.split", args, node)
+    t, sp = args[0].t, z3.StringVal(sep)
+    n = NPARTS(t, sp)
+    first, last = PART(t, sp, z3.IntVal(0)), PART(t, sp, n - 1)
+    st.assume(z3.And(n >= 1, (n == 1) == z3.Not(z3.Contains(t, sp)), z3.Implies(n == 1, first == t),
+                     z3.Implies(n > 1, z3.PrefixOf(z3.Concat(first, sp), t)), z3.Implies(n > 1, z3.SuffixOf(z3.Concat(sp, last), t)),
+                     z3.Not(z3.Contains(first, sp)), z3.Not(z3.Contains(last, sp))))
+    return [(st, VSeq(n, lambda i: VStr(PART(t, sp, i)), "str", tag=("split", t, sep)))]
 
 
 def str_fn(name, F):
@@ -2037,6 +2281,7 @@ def install_members(reg):
     reg.method_models[("seq", "startswith")] = m_seq_startswith
     reg.method_models[("PathCounts", "get")] = m_pathcounts_get
     reg.ext_models["os.path.normpath"] = str_fn("os.path.normpath", NORMPATH)
+    reg.ext_models["str.split"] = m_str_split
     reg.method_models[("Stream7z", "seek")] = m_stream_seek
     reg.ext_models[("const", "os.SEEK_END")] = VInt(2)
     common.install_clock(reg)
@@ -2056,6 +2301,7 @@ def install_members(reg):
         zf = VExt("ZipFile")
         st.assume(ZN(zf.t) >= 0)
         st.ghost["zip_source"] = args[0] if args else None
+        st.ghost["zip_objects"] = st.ghost.get("zip_objects", ()) + (zf.t,)
         return [(st, zf)]
     reg.ext_models[("new", "zipfile.ZipFile")] = new_zip
     reg.ext_models[("with", "ZipFile")] = with_passthrough
@@ -2071,6 +2317,7 @@ def install_members(reg):
     def zip_read(ex, st, obj, args, kwargs, node):
         """zf.read(info): ASSUMED to return the member's bytes, or to raise RuntimeError (encrypted member)."""
         bad = st.fork()
+        bad.ghost["zip_read_refused"] = True
         ex.raise_in(bad, ex.mk_exc("RuntimeError"))
         a = args[0]
         if isinstance(a, VExt) and a.sort == "ZipInfo":
@@ -2351,12 +2598,26 @@ def member_contracts(reg_models=None):
         return z3.And(conj + [z3.BoolVal(True)])
 
     ENC = "ExtractionFileEncryptedError"
+
+    def zip_encrypted_when(c):
+        """APPNOTE 4.4.4: general purpose bit 0 set = the member is encrypted (strong encryption, bit 6, implies bit 0); every
+        other bit (deflate option bits 1-2, data descriptor 3, UTF-8 names 11, ...) says nothing about readability.  The whole
+        archive may be refused as encrypted only if some listed entry carries bit 0, or if zipfile itself refuses a member at
+        read time (RuntimeError: the ASSUMED behaviour of ZipFile.read on an encrypted member)."""
+        if c.st.ghost.get("zip_read_refused"):
+            return z3.BoolVal(True)
+        zfs = c.st.ghost.get("zip_objects", ())
+        if not zfs:
+            return z3.BoolVal(False)
+        j = z3.Int("j!enc")
+        return z3.Or([z3.Exists([j], z3.And(j >= 0, j < ZN(zf), z3.Extract(0, 0, ZFLAGS(ZINFO(zf, j))) == 1)) for zf in zfs])
+
     out.append(FnContract(
         target=f"{ARCH}::_extract_from_zip_optimized",
         params=[("file_like", p_ext("Stream7z")), ("archive_path", p_opt(p_str()))],
         generator=True,
         ensures=[completes("selects-the-visible-supported-members-in-infolist-order", "each-selected-member-dispatched-with-its-own-bytes-name-basename"), ("container-opened-on-the-given-bytes", internal(lambda c: z3.BoolVal(c.st.ghost.get("zip_source") is c.args["file_like"])))],
-        raises=[Raises(ENC, label="an entry is encrypted"), Raises("Exception", sub=True, label="the container could not be opened",
+        raises=[Raises(ENC, label="an entry is encrypted", when=zip_encrypted_when), Raises("Exception", sub=True, label="the container could not be opened",
                                                                   when=lambda c: z3.BoolVal(c.exc is not None and c.exc.attrs.get("site") == "zipfile.ZipFile()")),
                 Raises("ExtractionFailedError", label="BadZipFile from the constructor")],
         loops=merged(role(is_seq("ZipInfo"), "selects-the-visible-supported-members-in-infolist-order", zip_sel_inv),
@@ -3676,7 +3937,12 @@ ASSUMED_MODELS = [
     "zipfile.ZipFile (constructor, infolist, read, context manager), ZipInfo.is_dir()/flag_bits/filename/file_size",
     "tarfile.open, TarFile.getmembers/extractfile, TarInfo.isreg()/name/size", "SevenZipFile (needs_password, list, extractall) as seen from archive_extractor",
     "tempfile.TemporaryDirectory (fresh private path)", "os.path.exists", "time.perf_counter",
-    "sevenzip._safe_join (C09), archive_extractor._should_skip_file (C09), _get_file_extractor_cached (C07/C15), SevenZipReader._apply_decoder (Trust)",
+    "sevenzip._safe_join at its call sites (verified here for WHEN it refuses a name, by C09 for confinement), archive_extractor._should_skip_file (C09), "
+    "_get_file_extractor_cached (C07/C15), SevenZipReader._apply_decoder (Trust)",
+    "os.path.splitdrive / isabs / abspath / normpath uninterpreted (C09's models), POSIX os.sep / os.pardir / os.curdir",
+    "str.split(sep): n >= 1 pieces without sep, s starts with piece 0 (+ sep when n > 1) and ends with the last piece, n == 1 iff sep not in s",
+    "ZipFile.read raises RuntimeError on an encrypted member (ghost flag zip_read_refused); APPNOTE 4.4.4: general purpose bit 0 = encrypted",
+    "int-valued enum members compare / hash / print as their ints (PY-INTENUM); with-statement over a plain module class = PEP 343 expansion",
 ]
 ASSUMPTIONS = [
     "PY-INT with exact bit-vector encoding", "PY-GEN", "EXC-ANY for un-modelled library calls", "logger calls dropped (PY-LOG)",
